@@ -36,6 +36,23 @@ CHECKS = [
   "text": "Decides: Tensor._grad is written only by the nine listed functions; the seed has the tensor's dtype and is stored only after the shape test is false, a mismatch raises before "
           "any store; every value store discharges a dtype obligation and a shape obligation; a provable shape mismatch is a violation (GRUnit: known finding D2)." + NOT_DECIDED +
           "the three seeding identities as value equalities.", "note": NOTE},
+ {"property_id": "C11", "technique": "static: agreement checks between sibling entry points (operator table, method/function pairs, registry vs kernel), set-membership and dispatch-order dominance",
+  "text": "Decides: each operator dunder routes to the Operation whose numpy_ufunc is the language-defined kernel with the right operand order (in-place forms return self); the 16 Tensor-method/function "
+          "sibling pairs hand the same Operation the same argument structure and defaults; every @ufunc_creator/@implements_numpy_override registration overrides the NumPy function its op actually executes; "
+          "the rounding/modulo family is const-only, in no other table, and goes through the raising caster; dispatch consults the differentiable registry first and forwards all arguments." + NOT_DECIDED +
+          "equality of values/gradients across spellings.", "note": NOTE},
+ {"property_id": "C15", "technique": "static: symbolic depth arithmetic of the enter/exit bracket, with-only typestate, who-may-write of the switches, reachability under TRACK_GRAPH=False specialisation",
+  "text": "Decides: ContextTracker saves before it sets, restores from the key it saved under (term over _depth), pops, never returns truthy from __exit__, restores on every path; scopes are only entered by "
+          "with-statements; the two switches are written only by their setters / turn_memory_guarding_*; with tracking off _op writes no input state, locks nothing and builds a creator-less result, "
+          "_in_place_op writes into self.data, backward returns at once; conditions read the switches live (two frozen, verified-benign stale imports)." + NOT_DECIDED + "value preservation inside scopes; threads.", "note": NOTE},
+ {"property_id": "C17", "technique": "static: parameter-forwarding agreement with NumPy namesakes, specialised-CFG reachability of the pass-through return, default tables",
+  "text": "Decides: tensor()/Tensor() default to copy=True and forward every option; astensor routes copy=False; the pass-through return of tensor() is dead unless copy is False, the input is a Tensor and "
+          "constant/dtype match; each of the 15 creation routines delegates to its NumPy namesake, forwards every parameter, adopts the array without a copy and has the documented defaults; copy()/astype() "
+          "return detached tensors; the dtype gate of Tensor.__init__." + NOT_DECIDED + "actual aliasing outcomes per dtype combination.", "note": NOTE},
+ {"property_id": "C18", "technique": "static: writer/reader key-set agreement, purity (effect) check of save, dominance in load",
+  "text": "Narrow claim. Decides: the keyword set save passes to np.savez equals the key set load reads; data is written on every path and grad exactly when tensor.grad is not None; file objects/paths pass through "
+          "unmodified; save only reads .data/.grad, stores nothing and calls no tensor method; load rebuilds from loaded['data'] without dtype and restores through backward(loaded['grad']) exactly when the key "
+          "exists." + NOT_DECIDED + "equality of loaded values; NumPy's .npz fidelity.", "note": NOTE},
 ]
 _BUILT = {c["property_id"] for c in CHECKS}
 NOT_APPLICABLE = [
